@@ -188,6 +188,8 @@ def run(chk):
     for q in want_prefix:
         if q not in seen:
             r5.fail("%s:no-validation" % q, "%s no longer validates keys through check_key_helper" % q, file="pymemcache/client/base.py")
+    wrapper_returns(prog, r5)
+
     # every key fragment on the wire of a key-addressed command was validated with the instance prefix
     from . import wire
 
@@ -210,6 +212,30 @@ def run(chk):
     r5.floor("key fragments on the wire", n_keys, 18)
     chk.assume("CPython semantics of str.encode('ascii'/'utf8') and bytes.split() as modelled in pmcsa/keyeval.py")
     chk.assume("str keys are well-formed Unicode (no lone surrogates), as in the property's quantifier")
+
+
+def wrapper_returns(prog, r5):
+    """The per-class wrappers return, on every path, the helper's verdict for this call's own (key, prefix)."""
+    for cname in ("Client", "PooledClient"):
+        w = prog.method(cname, "check_key", required=False)
+        if w is None:
+            r5.fail("%s.check_key:missing" % cname, "%s has no check_key wrapper" % cname, file="pymemcache/client/base.py")
+            continue
+        params = [p.name for p in w.pos_params()]
+        for ret in [n for n in walk_no_nested(w.node) if isinstance(n, ast.Return)]:
+            v = ret.value
+            src_ok = False
+            if isinstance(v, ast.Name):
+                defs = [n for n in walk_no_nested(w.node) if isinstance(n, ast.Assign) and any(isinstance(t, ast.Name) and t.id == v.id for t in n.targets)]
+                src_ok = bool(defs) and all(isinstance(d.value, ast.Call) and call_name(d.value) == "check_key_helper" for d in defs)
+            elif isinstance(v, ast.Call) and call_name(v) == "check_key_helper":
+                src_ok = True
+            elif isinstance(v, ast.Subscript):
+                # a memo is acceptable only if it is indexed by everything the verdict depends on
+                idx = {n.id for n in ast.walk(v.slice) if isinstance(n, ast.Name)}
+                src_ok = set(params) <= idx
+            r5.expect(src_ok, "%s.check_key returns the helper's result for this call's arguments" % cname, "%s.check_key:returns-foreign-result" % cname, "%s.check_key can return `%s`, which is not the result of validating this call's own (%s): a key validated under one prefix is reused under another, so an unprefixed (or wrongly prefixed) key reaches the wire" % (cname, node_src(v) if v is not None else None, ", ".join(params)), fn=w, node=ret)
+
 
 
 def _flatten(frags):
